@@ -28,6 +28,21 @@ type Rec struct {
 
 const nEnvs = 3
 
+// values of sp, sp2, spl, spt per environment
+var blanks = [nEnvs][4]string{
+	{"a b", "a  b", " a b", "a b "},
+	{"a  b", "a b", "  a b", "a b  "},
+	{"a b", "a   b", " a  b", "a  b "},
+}
+
+var (
+	blankPaths  = []string{"sp", "sp2", "spl", "spt"}
+	blankLits   = []string{"a b", "a  b", "a   b", " a b", "  a b", "a b ", "a b  ", " a  b", "a  b ", "a\tb"}
+	zeroLedStrs = []string{"z10", "z08", "z007", "z0s"} // "010" "08" "007" "0": decimal text
+	badNumPaths = []string{"hx", "und", "b11", "o7", "lsp", "isp", "e"}
+	badNumLits  = []string{"0x10", "1_000", "0b11", "0o7", " 42", "4 2", ""}
+)
+
 // fnEnv is a fourth environment (family A only): environment 0 plus variables whose NAMES are
 // those of template functions (docs/syntax.md itself uses `title` as its example variable).
 // A variable shadows the function of the same name, so calling f(...) where the data binds f
@@ -75,6 +90,12 @@ func envOf(id int) map[string]any {
 		"a": r.a, "b": r.b, "z": r.z, "n": r.n,
 		"f": r.f, "g": r.g, "zf": r.zf,
 		"s": r.s, "h": r.h, "e": r.e, "num": r.num, "bad": "bad", "pad": "  hi  ",
+		// strings with single, double and edge blanks (two spellings of a literal that differ only
+		// in blanks must evaluate differently against them)
+		"sp": blanks[id%nEnvs][0], "sp2": blanks[id%nEnvs][1], "spl": blanks[id%nEnvs][2], "spt": blanks[id%nEnvs][3],
+		// decimal texts with leading zeros, and texts that are not decimal numbers
+		"z10": "010", "z08": "08", "z007": "007", "z0s": "0",
+		"hx": "0x10", "und": "1_000", "b11": "0b11", "o7": "0o7", "lsp": " 42", "isp": "4 2",
 		"t": r.t, "u": r.u, "off": false,
 		"big": int64(1234567),
 		"m": map[string]any{"k": r.k, "name": r.name, "ok": r.ok, "rate": r.rate,
@@ -93,14 +114,14 @@ func envOf(id int) map[string]any {
 var (
 	intPaths    = []string{"a", "b", "z", "n", "m.k", `m["k"]`, `m['k']`, "m.inner.x", `m["inner"].x`, "xs[0]", "xs[2]", "st.Age", "st.In.X", "us[0].age", "us[1].age", "rs[0].Age"}
 	floatPaths  = []string{"f", "g", "zf", "m.rate", `m['rate']`, "fs[0]", "fs[1]", "st.Score", "rs[0].Score"}
-	stringPaths = []string{"s", "h", "e", "num", "m.name", `m["name"]`, `m['name']`, "m.inner.s", "ss[0]", "ss[1]", "st.Name", "st.In.S", "us[0].name", "us[1].name", "rs[0].Name"}
+	stringPaths = []string{"s", "h", "e", "num", "m.name", `m["name"]`, `m['name']`, "m.inner.s", "ss[0]", "ss[1]", "st.Name", "st.In.S", "us[0].name", "us[1].name", "rs[0].Name", "sp", "sp2", "spl", "spt"}
 	boolPaths   = []string{"t", "u", "off", "m.ok", `m["ok"]`, "bs[0]", "bs[1]", "st.Ok", "us[0].admin", "us[1].admin", "rs[0].Ok"}
 	listPaths   = []string{"xs", "ss", "fs", "bs"}
 	mapPaths    = []string{"m", "m.inner", "us[0]"}
 	// never zero in any environment (divisors)
 	nonzeroIntPaths   = []string{"a", "b", "n", "m.inner.x", "us[1].age"}
 	nonzeroFloatPaths = []string{"f", "g"}
-	envNames          = []string{"a", "b", "z", "n", "f", "g", "zf", "s", "h", "e", "num", "bad", "pad", "t", "u", "off", "big", "m", "xs", "fs", "ss", "bs", "st", "us", "rs"}
+	envNames          = []string{"a", "b", "z", "n", "f", "g", "zf", "s", "h", "e", "num", "bad", "pad", "sp", "sp2", "spl", "spt", "z10", "z08", "z007", "z0s", "hx", "und", "b11", "o7", "lsp", "isp", "t", "u", "off", "big", "m", "xs", "fs", "ss", "bs", "st", "us", "rs"}
 )
 
 // resolve walks a path of the forms a.b, xs[1], m["k"], m['k'] over the environment.
@@ -217,38 +238,44 @@ func prec(e Expr) int {
 
 // Text prints the expression: binary operators with single surrounding spaces (as in every
 // documented example), minimal parentheses, explicit "paren" nodes for redundant ones.
-func (e Expr) Text() string {
+func (e Expr) Text() string { return e.text(" ") }
+
+// WideText is the same expression with every blank outside string literals doubled; it must
+// mean the same.
+func (e Expr) WideText() string { return e.text("  ") }
+
+func (e Expr) text(sp string) string {
 	switch e.K {
 	case "path", "int", "float", "bool":
 		return e.V
 	case "str":
 		return quote(e.V, e.Q)
 	case "paren":
-		return "(" + e.A[0].Text() + ")"
+		return "(" + e.A[0].text(sp) + ")"
 	case "not":
 		in := e.A[0]
 		if prec(in) < 9 {
-			return "!(" + in.Text() + ")"
+			return "!(" + in.text(sp) + ")"
 		}
-		return "!" + in.Text()
+		return "!" + in.text(sp)
 	case "call":
 		var as []string
 		for _, a := range e.A {
-			as = append(as, a.Text())
+			as = append(as, a.text(sp))
 		}
-		return e.V + "(" + strings.Join(as, ", ") + ")"
+		return e.V + "(" + strings.Join(as, ","+sp) + ")"
 	case "tern":
 		p := func(x Expr) string {
 			if x.K == "tern" {
-				return "(" + x.Text() + ")"
+				return "(" + x.text(sp) + ")"
 			}
-			return x.Text()
+			return x.text(sp)
 		}
-		return p(e.A[0]) + " ? " + p(e.A[1]) + " : " + p(e.A[2])
+		return p(e.A[0]) + sp + "?" + sp + p(e.A[1]) + sp + ":" + sp + p(e.A[2])
 	case "bin":
 		me := prec(e)
 		l, r := e.A[0], e.A[1]
-		ls, rs := l.Text(), r.Text()
+		ls, rs := l.text(sp), r.text(sp)
 		// left-associative: the right operand needs parentheses at equal precedence;
 		// comparisons are never chained bare (languages disagree on their relative precedence)
 		if prec(l) < me || (me == 4 && prec(l) == 4) {
@@ -257,9 +284,44 @@ func (e Expr) Text() string {
 		if prec(r) <= me {
 			rs = "(" + rs + ")"
 		}
-		return ls + " " + e.V + " " + rs
+		return ls + sp + e.V + sp + rs
 	}
 	return "?" + e.K
+}
+
+// blankTwin changes the whitespace INSIDE every string literal (a single blank is doubled,
+// any longer run or a tab becomes one blank): a different expression with the same tokens.
+func blankTwin(e Expr) (Expr, bool) {
+	out, changed := e, false
+	if e.K == "str" {
+		var sb strings.Builder
+		for i := 0; i < len(e.V); {
+			if e.V[i] != ' ' && e.V[i] != '\t' {
+				sb.WriteByte(e.V[i])
+				i++
+				continue
+			}
+			j := i
+			for j < len(e.V) && (e.V[j] == ' ' || e.V[j] == '\t') {
+				j++
+			}
+			if e.V[i:j] == " " {
+				sb.WriteString("  ")
+			} else {
+				sb.WriteString(" ")
+			}
+			changed = true
+			i = j
+		}
+		out.V = sb.String()
+	}
+	out.A = nil
+	for _, a := range e.A {
+		t, c := blankTwin(a)
+		out.A = append(out.A, t)
+		changed = changed || c
+	}
+	return out, changed
 }
 
 // unknown is the value of anything computed from `/` (7/2 has two conventional answers).
@@ -290,6 +352,8 @@ func truthy(v any) bool {
 	case int:
 		return x != 0
 	case int64:
+		return x != 0
+	case uint:
 		return x != 0
 	case float64:
 		return x != 0
